@@ -196,7 +196,10 @@ fn one_system(st: &mut Stats, rng: &mut Rng) {
                 // representable in the scaled units: that is a limit of every unscaled Krylov recurrence, not a defect
                 // log2 sizes of A, b, x0 in both unit systems; the recurrences form (A v).(A v) with v at the scale of the
                 // initial residual max(||b||, ||A|| ||x0||) (divided by max|b_i| once the library has rescaled b)
-                let fx0 = if x0.iter().all(|v| *v == 0.0) { f64::NEG_INFINITY } else { norm2(&x0).log2() };
+                // (the guess OR the largest iterate of the original run, whichever is larger: after a near-breakdown the iterates and
+                //  residuals spike by many orders of magnitude - thorough seed 5 - and the spike must be representable in both unit systems too)
+                let mmax = max_iterate_norm(sv, &a, &bv, &x0, it, tol).max(norm2(&x0));
+                let fx0 = if mmax == 0.0 { f64::NEG_INFINITY } else { mmax.log2() };
                 // ... down to the scale of the CONVERGED residual tol*||b|| (thorough seed 3: (A s).(A s) went subnormal near
                 // convergence in the scaled units only, which changed the last bits and once the iteration count by two)
                 let ltol = tol.log2() - 10.0;
